@@ -649,16 +649,16 @@ func genC14Witnesses(w *bufio.Writer, _ *hx.Rng, _ string) {
 	c14Emit(w, c14MatchLine("and_prefix", true, []*c14Cond{cond("f", "r", "^a")}, obj(jt.F("f", jt.S("ab")))))
 
 	note("(b) case-insensitive equal: value k, field U+212A KELVIN SIGN (lower-cases to k, 3 bytes -> 1)")
-	c14Emit(w, c14DoIfLine(c14Epoch, fop("eq", false, "f", "k"), obj(jt.F("f", jt.S("K")))))
+	c14Emit(w, c14DoIfLine(c14Epoch, fop("eq", false, "f", "k"), obj(jt.F("f", jt.S("\u212a")))))
 	note("(b) case-insensitive equal: value U+212A, field k")
-	c14Emit(w, c14DoIfLine(c14Epoch, fop("eq", false, "f", "K"), obj(jt.F("f", jt.S("k")))))
+	c14Emit(w, c14DoIfLine(c14Epoch, fop("eq", false, "f", "\u212a"), obj(jt.F("f", jt.S("k")))))
 	note("(b) case-insensitive prefix: value U+023A (2 bytes, lower-cases to the 3-byte U+2C65), field U+2C65 x")
-	c14Emit(w, c14DoIfLine(c14Epoch, fop("pr", false, "f", "Ⱥ"), obj(jt.F("f", jt.S("ⱥx")))))
+	c14Emit(w, c14DoIfLine(c14Epoch, fop("pr", false, "f", "\u023a"), obj(jt.F("f", jt.S("\u2c65x")))))
 	note("(b) case-insensitive prefix: value U+FFFD, field U+1F600: truncation splits the rune, ToLower turns the pieces into U+FFFD")
-	c14Emit(w, c14DoIfLine(c14Epoch, fop("pr", false, "f", "�"), obj(jt.F("f", jt.S("\U0001F600")))))
+	c14Emit(w, c14DoIfLine(c14Epoch, fop("pr", false, "f", "\ufffd"), obj(jt.F("f", jt.S("\U0001F600")))))
 	note("(b) case-insensitive suffix / contains: value k, field x U+212A")
-	c14Emit(w, c14DoIfLine(c14Epoch, fop("su", false, "f", "K"), obj(jt.F("f", jt.S("xk")))))
-	c14Emit(w, c14DoIfLine(c14Epoch, fop("co", false, "f", "KK"), obj(jt.F("f", jt.S("kk")))))
+	c14Emit(w, c14DoIfLine(c14Epoch, fop("su", false, "f", "\u212a"), obj(jt.F("f", jt.S("xk")))))
+	c14Emit(w, c14DoIfLine(c14Epoch, fop("co", false, "f", "\u212a\u212a"), obj(jt.F("f", jt.S("kk")))))
 
 	note("(c) arrays and objects are documented as not matched; Get yields one NUL byte")
 	c14Emit(w, c14DoIfLine(c14Epoch, fop("co", true, "f", ""), obj(jt.F("f", jt.O()))))
